@@ -48,15 +48,16 @@ const (
 	CSetDefaultExp
 	CSetCallback
 	// harness-level
-	HAdvance  // clock += D
-	HBulkSet  // keys Key..Key+N-1, values Val+i, TTL D (caches) / Store (maps)
-	HBulkDel  // keys Key..Key+N-1 via Delete
-	HBulkGet  // keys Key..Key+N-1 via Get/Load, each checked
+	HAdvance // clock += D
+	HBulkSet // keys Key..Key+N-1, values Val+i, TTL D (caches) / Store (maps)
+	HBulkDel // keys Key..Key+N-1 via Delete
+	HBulkGet // keys Key..Key+N-1 via Get/Load, each checked
 	// pseudo operations produced by decomposition (linearizability checker only)
 	PSweepKey  // one key of a DeleteExpired: obs OK = fired, V = fired value
 	PVisitKey  // one key of a Range/Items: obs OK = visited, V = value
 	PColdVisit // cold keys as seen by a Range/Items: T = 1 all, 0 none
 	PColdLoad  // cold keys as seen by quiescent Loads/Gets: T = 1 all, 0 none
+	HGC        // harness: a full garbage collection followed by allocations that reuse freed memory (no effect on contents)
 	kindMax
 )
 
@@ -70,7 +71,7 @@ var kindNames = [...]string{
 	CDeleteExpired: "DeleteExpired", CRange: "Range", CItems: "Items", CClear: "Clear", CCount: "Count",
 	CDefaultExp: "DefaultExpiration", CSetDefaultExp: "SetDefaultExpiration", CSetCallback: "SetEvictedCallback",
 	HAdvance: "advance", HBulkSet: "bulkSet", HBulkDel: "bulkDelete", HBulkGet: "bulkGet",
-	PSweepKey: "sweep", PVisitKey: "visit", PColdVisit: "coldVisit", PColdLoad: "coldLoad",
+	PSweepKey: "sweep", PVisitKey: "visit", PColdVisit: "coldVisit", PColdLoad: "coldLoad", HGC: "collectGarbage",
 }
 
 func (k Kind) String() string {
@@ -84,7 +85,7 @@ func (k Kind) String() string {
 func (k Kind) Keyed() bool {
 	switch k {
 	case MClear, MSize, MRange, CDeleteExpired, CRange, CItems, CClear, CCount, CDefaultExp, CSetDefaultExp, CSetCallback,
-		HAdvance, HBulkSet, HBulkDel, HBulkGet, PColdVisit, PColdLoad, KNone:
+		HAdvance, HBulkSet, HBulkDel, HBulkGet, PColdVisit, PColdLoad, HGC, KNone:
 		return false
 	}
 	return true
